@@ -6,8 +6,17 @@ E1_NOTE = ('Trusted base: the in-repo mock git host (bert_e/git_host/mock.py) st
 
 ENGINES = [
     {'name': 'E1 world', 'path': 'sim/world.py, sim/ops.py',
-     'serves_properties': ['C01', 'C02', 'C03', 'C06', 'C08', 'C10', 'C12', 'C15', 'C19', 'C20'],
+     'serves_properties': ['C01', 'C02', 'C03', 'C06', 'C08', 'C10', 'C12', 'C15', 'C16', 'C19', 'C20'],
      'kind_free_text': 'real BertE + workflow + jobs + lib/git + mock host + real git binary; simulated users, CI, webhooks, third parties, crashes, partitions, per-ref push rejection, clock'},
+    {'name': 'E3 http', 'path': 'sim/props/c14.py',
+     'serves_properties': ['C14'],
+     'kind_free_text': 'the real Flask app from setup_server() on an inert BertE; request matrix in seeded order over 3 clients with session churn; forms looped back into the app'},
+    {'name': 'E4 hostproto', 'path': 'sim/e4_host.py, sim/props/c17.py, sim/props/c16.py',
+     'serves_properties': ['C17', 'C16'],
+     'kind_free_text': 'real github/bitbucket clients, BertESession, status cache and webhook handlers against a simulated host served through the requests transport-adapter interface; CI re-runs, webhook reordering/duplication/drop, transport faults, cache sizes'},
+    {'name': 'E5 gates', 'path': 'sim/e5_reviews.py, sim/e5_cascade.py, sim/props/c04.py c05.py c07.py c09.py c11.py',
+     'serves_properties': ['C04', 'C05', 'C07', 'C09', 'C11'],
+     'kind_free_text': 'component-level simulation: real gate functions (handle_comments, check_approvals, jira_checks, BranchCascade, QueueCollection) on real job / mock-host objects while simulated parties (reviewers, admins, Jira editors, release managers, CI) build the state they read; git replaced by an in-memory commit graph'},
     {'name': 'E2 threads', 'path': 'sim/e2_threads.py',
      'serves_properties': ['C13'],
      'kind_free_text': 'baton-passing real threads under sys.settrace; seeded pre-emption plans over put_job/process_task/process/Job.__eq__'},
@@ -72,6 +81,51 @@ META.update({
         'technique': 'deterministic simulation: admin jobs (create/delete branch, rebuild/delete/force-merge queues) issued in seeded reachable states with queued PRs; before/after ref+tag diff against a reference cascade model',
         'text': 'In states reached by seeded histories (queues on/off, hotfix queues, queued PRs) admin jobs are issued with names older/between/newer/existing/archived and branch_from absent/branch/commit. Refusals (JobFailure/NothingToDo/NotMyJob) must leave refs and tags identical; a successful create-branch must leave a well-formed layout (reference model) with the C01 chain, never for an archived version or an older development branch while PRs are queued; delete-branch refuses with queued PRs / live stabilization and leaves the archive tag on the deleted tip; rebuild/delete queues touch only q/*, and rebuild re-submits exactly the queued PRs in entry order (per independent queue).',
         'note': E1_NOTE + 'A rebuild-queues job that ends in an internal exception while PRs are queued counts as a violation (it re-submits nothing).'},
+})
+
+E5_NOTE = ('Component-level simulation (labelled as such): the gate functions are the real ones, called directly on a real job bound to the in-repo mock host; git is a stub / in-memory commit graph; seeded sampling. ')
+
+META.update({
+    'C04': {
+        'engine': 'E5 gates', 'level': 'exploration', 'design_ref': 'DESIGN.md 5 C04',
+        'technique': 'deterministic simulation of the parties that build the review state (reviewers, admins, author, robot, failing host reads); refinement of the real check_approvals against a three-valued reference predicate after every op',
+        'text': 'Seeded histories of approvals, change requests, dismissals, comment-reviews and option comments over a 5-user universe under drawn settings (required_peer 0-3, required_leader 0-2 within the settings validation, need_author on/off, leader sets with/without the author, per-author and command-line bypasses). After every op the real handle_comments + check_approvals run on a fresh job; the outcome (pass / ApprovalRequired) must equal the reference predicate written from the statement, three-valued where the statement is silent; a failing host read must never yield pass.',
+        'note': E5_NOTE + 'Options are those the real handle_comments produced (C07 checks them); approve/unanimity come from comments only, as in the quantifier; option=value on a boolean option is unspecified.'},
+    'C05': {
+        'engine': 'E5 gates', 'level': 'exploration', 'design_ref': 'DESIGN.md 5 C05',
+        'technique': 'deterministic simulation of queue histories (PRs entering, CI reporting in any order incl. superseded commits, evaluations applied) on an in-memory commit graph; refinement of the real QueueCollection against the longest-green-prefix reference; disagreements re-staged on a real repository through E1',
+        'text': 'The statement asks for exhaustive enumeration; this check samples that input space through ~10^5 seeded queue histories per minute: cascades of 1-3 development versions with optional stabilization and hotfix, <= 4 queued PRs on any destination, statuses {SUCCESSFUL, FAILED, INPROGRESS, NOTSTARTED} on any queue commit, q/* refs listed in seeded order, normal and force evaluations applied before more PRs enter. Selected PRs and destination movements of the real class must equal the reference (longest all-green prefix per independent queue).',
+        'note': E5_NOTE + 'NOT exhaustive (sampling). add_to_queue is modelled (parents of queue commits), which is why each disagreement is re-staged on a real repository before being classified; one genuine defect is recorded as a known finding.'},
+    'C07': {
+        'engine': 'E5 gates', 'level': 'exploration', 'design_ref': 'DESIGN.md 5 C07',
+        'technique': 'deterministic simulation of commenters (author, admin, admin-who-is-author, others, robot) posting from the option/command grammar of the live registry; refinement of the real handle_comments against an independent parser + entitlement model after every op',
+        'text': 'Comment lists built over time from {@robot, @robot:, /} x keyword[=arg] sequences (every registered option and command plus unknown words, separators from " ,.-:;|+", leading/trailing text, glued and odd shapes) by the five kinds of posters, with deletions. After every op the real handle_comments runs on a fresh job: a privileged option may be active only if an admin who is not the author set it (or settings/command line), approve only from the author, an unknown / unauthorised keyword must block with the matching message, unaddressed text must change nothing.',
+        'note': E5_NOTE + 'Only the clauses of the statement (all of them "only if"/"blocks") are judged; a valid comment that is nevertheless blocked, or not applied, is counted as an observation. Shapes on which the documentation is silent are classified unspecified and counted.'},
+    'C09': {
+        'engine': 'E5 gates', 'level': 'exploration', 'design_ref': 'DESIGN.md 5 C09',
+        'technique': 'deterministic simulation of a release manager editing branches and tags over time, refs discovered in seeded order and under seed-dependent hash randomisation; refinement of the real BranchCascade against a reference cascade model for every destination after every op',
+        'text': 'Histories over majors {4,5,10} x minors {0,1,none}: create development branches, cut/drop stabilizations, tag releases (plain, v-prefixed, suffixed, x.y.z.n), open and tag hotfix branches, archive versions, ill-formed moves and foreign names. After every op, for every destination, targets, ignored branches and fix versions of the real cascade must equal the reference; the three ill-formed layouts of the statement must be rejected.',
+        'note': E5_NOTE + 'The order of discovery is the simulated nondeterminism (git listing order and PYTHONHASHSEED); ancestry questions answer yes (inclusion is C01). A hotfix branch with no tag of its version has an unspecified fix version.'},
+    'C11': {
+        'engine': 'E5 gates', 'level': 'exploration', 'design_ref': 'DESIGN.md 5 C11',
+        'technique': 'deterministic simulation of Jira editors and API failures between evaluations; refinement of the real jira_checks against the decision list of the statement after every op',
+        'text': 'Histories in which issues are created, deleted, retyped and their fixVersions edited (incl. suffixed and x.y.z.n forms), admins comment bypass_jira_check, the Jira API answers 404 vs 5xx, under drawn settings (jira_keys, prefixes, bypass_prefixes, disable_version_checks, Jira unconfigured, per-author/command-line bypass), source names with/without/lower-case/foreign ticket keys and six cascades. After every op the real jira_checks outcome must be the class the statement prescribes; a 5xx never yields pass.',
+        'note': E5_NOTE + 'Expected versions are those of the real cascade (C09 checks them separately); the "repository untouched" clause follows from jira_checks running before any integration branch is created (C12/C19 observe refs on real repositories).'},
+    'C14': {
+        'engine': 'E3 http', 'level': 'exploration', 'design_ref': 'DESIGN.md 5 C14',
+        'technique': 'deterministic simulation of HTTP clients: the complete request matrix issued in a seeded order interleaved over three clients with session churn against the real Flask app; reference ACL checked after every request on status class and exact task-queue growth',
+        'text': 'Every registered API endpoint and management form (live registries) x 5 methods x 4 session states x well-/ill-formed parameters (branch names around the grammar, pr ids <= 0, missing/extra JSON, bodies shadowing URL parameters), both webhook routes x 4 credentials x 3 repository identities x handled and unhandled event types, on a Bitbucket- and a GitHub-configured instance: 908 cells, all executed in every run, in seeded order. A refused cell answers >= 400 and enqueues nothing; an allowed cell enqueues exactly one job of the endpoint class carrying exactly the validated parameters and the session user.',
+        'note': 'BertE instance is inert (no git); sessions are set through the Flask test client (OAuth not exercised); the forms outgoing HTTP call is looped back into the same app; endpoints unknown to the reference ACL are held to the weaker rule and reported.'},
+    'C16': {
+        'engine': 'E1 world + E4 hostproto', 'level': 'fault_enumeration', 'design_ref': 'DESIGN.md 5 C16',
+        'technique': 'deterministic simulation with fault injection: every git command index of sampled jobs made to fail / hang while printing the credentialed URL (Popen seam), at DEBUG and INFO; scripted GitHub (password, App/JWT) and Bitbucket sessions with failing responses; every sink searched for the secrets',
+        'text': 'Git half: seeded histories on a repository whose clone URL carries the robot password (URL-special, shell-special, non-ASCII, blank-containing passwords); for sampled jobs (PR, commit and admin jobs) each git command index - all of them in thorough, a seeded subset in quick - is replaced by a process that exits non-zero or times out after printing the URL; log records incl. tracebacks, fd-level stdout/stderr, job status/details/as_json, status page, comments and status reports are searched for the password in raw, quote_plus and quote form. API half: GitHub password and App mode (JWT, installation token, TTL roll-over) and Bitbucket basic auth with 401/403/404/422/429/500, malformed bodies, timeouts; Authorization values, JWT and tokens must not reach logs, stdout or exception messages.',
+        'note': E1_NOTE + 'The failing process is substituted at the subprocess seam of bert_e.lib.simplecmd, so the masking code runs for real; a timeout costs 50 ms of real time.'},
+    'C17': {
+        'engine': 'E4 hostproto', 'level': 'exploration', 'design_ref': 'DESIGN.md 5 C17',
+        'technique': 'deterministic simulation of the git host and CI: status/check-suite webhooks (delayed, duplicated, dropped, reordered), polls, CI re-runs, cache resizes and transport faults against the real clients and cache; aggregation oracle (one-directional) and a conservative LRU reference for the never-downgrade clause',
+        'text': 'Seeded histories over 5 commits x 2 build keys on GitHub- and Bitbucket-configured clients: CI changes statuses and workflow-run lists (<= 4 runs over events x statuses x conclusions x 2 workflows x 2 branches, served in seeded order), webhooks go through the real handlers, polls through get_build_status, caches are resized to 1-3 entries, requests fail (404/429/500/502, timeout, malformed, reset). Every runs document served is re-aggregated with the real class and must not be SUCCESSFUL unless one branch has every considered workflow green; a (commit, key) Bert-E answered or was told SUCCESSFUL must stay SUCCESSFUL while it is certainly still cached; any never-green (commit, key) must be answered with what the host reports now.',
+        'note': 'The host is a model served through requests\' adapter interface; the LRU reference is deliberately conservative (entry required only while fewer distinct other commits than the minimum cache size were touched since its last definite touch, continuously since the green was seen).'},
 })
 
 NOT_APPLICABLE = [
